@@ -236,10 +236,17 @@ func fileNameToIndex(filename string) retrievedListIndex {
 func (p *Parser) Parse(resource string, reader reader.Reader) (*sysl.Module, error) {
 	// What view inference records belongs to one compilation: a Parser that is used again starts without the assign
 	// types, let scope keys and messages of the compilation before, so that the same source gives the same module.
-	// GetAssigns, GetLets and GetMessages describe the last compilation.
-	p.AssignTypes = map[string]TypeData{}
-	p.LetTypes = map[string]TypeData{}
-	p.Messages = map[string][]msg.Msg{}
+	// GetAssigns, GetLets and GetMessages describe the last compilation. A map that holds nothing is left alone:
+	// compilations that record nothing (sources without views) never write to the Parser.
+	if p.AssignTypes == nil || len(p.AssignTypes) > 0 {
+		p.AssignTypes = map[string]TypeData{}
+	}
+	if p.LetTypes == nil || len(p.LetTypes) > 0 {
+		p.LetTypes = map[string]TypeData{}
+	}
+	if p.Messages == nil || len(p.Messages) > 0 {
+		p.Messages = map[string][]msg.Msg{}
+	}
 
 	listener := NewTreeShapeListener()
 	listener.lint()
